@@ -203,6 +203,9 @@ def update_tags_case(rng):
 
 def run(chk, driver, tier):
     rng = chk.rng
+    # the COMPOSED model of `bumpver update` for LEGACY patterns (Model/UpdateV1.lean, theorems Props/UpdateV1.lean) against the real CLI
+    import props.updfull_v1 as updfull_v1
+    updfull_v1.run(chk, driver, 250 if tier == "thorough" else 25)
     # the COMPOSED model of the whole command (Model/Update.lean, theorems Props/Update.lean) against the real CLI: exit code, event trace and
     # every configured file afterwards, on generated projects x the flag/config lattice x tag and status listings x faults x failure positions
     import props.updfull as updfull
